@@ -191,6 +191,119 @@ fn corpus_program(rng: &mut Rng) -> (Program, &'static str) {
     }
 }
 
+
+#[allow(clippy::too_many_arguments)]
+fn check_transforms(ctx: &mut Ctx, rng: &mut Rng, p: &Program, base_text: &str, base: &Obs, stdin: &[u8], fuel: u64, transforms: usize, origin: &str) {
+        ctx.count(&format!("programs.{}", origin));
+        ctx.seen("base_outcomes", &base.outcome);
+        for _ in 0..transforms {
+            let q = transform(rng, &p, ctx);
+            let mut sp = Spelling::mild(rng);
+            sp.vary_case = true;
+            let text = match render(&q, &sp, rng) {
+                Ok(r) => r.text,
+                Err(e) => {
+                    ctx.count("transformed_inexpressible");
+                    ctx.seen("generator_inexpressible_reasons", &e.0);
+                    continue;
+                }
+            };
+            ctx.count("transforms");
+            match observe(ctx, &text, stdin, fuel) {
+                Err(e) => {
+                    ctx.violation(
+                        "transformed_program_rejected",
+                        &e,
+                        Json::obj().with("original", Json::s(base_text)).with("transformed", Json::s(&text)),
+                    );
+                    break;
+                }
+                Ok(o) => {
+                    if o != *base {
+                        let what = if o.stdout != base.stdout { "stdout" } else { "outcome" };
+                        ctx.violation(
+                            &format!("renaming_changed_{}", what),
+                            &format!(
+                                "original: {:?} / {}\nrenamed: {:?} / {}",
+                                String::from_utf8_lossy(&base.stdout),
+                                base.outcome,
+                                String::from_utf8_lossy(&o.stdout),
+                                o.outcome
+                            ),
+                            Json::obj().with("original", Json::s(base_text)).with("transformed", Json::s(&text)),
+                        );
+                        break;
+                    } else {
+                        ctx.nontrivial(hash_str(&text));
+                        if ctx.samples.len() < 2 && text.len() < 700 && base_text.len() < 700 {
+                            ctx.sample(Json::obj().with("original", Json::s(base_text)).with("transformed", Json::s(&text)).with("stdout", Json::s(String::from_utf8_lossy(&o.stdout).replace('\n', " | "))).with("outcome", Json::s(&o.outcome)));
+                        }
+                    }
+                }
+            }
+        }
+}
+
+/// Programs that declare the same name twice in one scope (a repeated parameter, a function defined twice, a
+/// function and a variable of one name, in either order): whatever rrss answers, it answers the same after
+/// renaming and re-casing. (The reference model leaves these programs open; no model is involved here.)
+fn fresh_any(rng: &mut Rng) -> Name {
+    let k = rng.below(3);
+    fresh_name_of_kind(rng, k, false)
+}
+
+fn duplicate_program(rng: &mut Rng) -> Program {
+    let f = fresh_any(rng);
+    let mut x = fresh_any(rng);
+    while x.key() == f.key() {
+        x = fresh_any(rng);
+    }
+    let ret = |v: &Name| vec![Stmt::Return { value: bin(BinOp::Plus, var(v), num(1.0)) }];
+    let mut ss = vec![say(num(1.0))];
+    match rng.below(7) {
+        0 => {
+            ss.push(Stmt::Function { name: f.clone(), params: vec![x.clone(), x.clone()], body: ret(&x) });
+            ss.push(say(num(2.0)));
+            ss.push(say(Expr::Prim(Prim::Call(f.clone(), vec![num(1.0), num(2.0)]))));
+        }
+        1 => {
+            // never called
+            ss.push(Stmt::Function { name: f.clone(), params: vec![x.clone(), x.clone()], body: ret(&x) });
+            ss.push(say(num(2.0)));
+        }
+        2 => {
+            ss.push(Stmt::Function { name: f.clone(), params: vec![x.clone()], body: ret(&x) });
+            ss.push(say(num(2.0)));
+            ss.push(Stmt::Function { name: f.clone(), params: vec![x.clone()], body: vec![Stmt::Return { value: num(7.0) }] });
+            ss.push(say(Expr::Prim(Prim::Call(f.clone(), vec![num(1.0)]))));
+        }
+        3 => {
+            ss.push(Stmt::Function { name: f.clone(), params: vec![x.clone()], body: ret(&x) });
+            ss.push(say(num(2.0)));
+            ss.push(put(num(5.0), &f));
+            ss.push(say(num(3.0)));
+        }
+        4 => {
+            ss.push(put(num(5.0), &f));
+            ss.push(Stmt::Function { name: f.clone(), params: vec![x.clone()], body: ret(&x) });
+            ss.push(say(num(2.0)));
+            ss.push(say(var(&f)));
+        }
+        5 => {
+            ss.push(Stmt::Function { name: f.clone(), params: vec![f.clone()], body: ret(&f) });
+            ss.push(say(Expr::Prim(Prim::Call(f.clone(), vec![num(2.0)]))));
+        }
+        _ => {
+            // three parameters, the first and the last the same
+            let y = fresh_any(rng);
+            ss.push(Stmt::Function { name: f.clone(), params: vec![x.clone(), y, x.clone()], body: ret(&x) });
+            ss.push(say(Expr::Prim(Prim::Call(f.clone(), vec![num(1.0), num(2.0), num(3.0)]))));
+        }
+    }
+    ss.push(say(num(9.0)));
+    Program::single(ss)
+}
+
 pub fn run(ctx: &mut Ctx) {
     let transforms = if ctx.is_quick() { 4 } else { 16 };
     let n = ctx.size(16_000, 500_000);
@@ -223,53 +336,25 @@ pub fn run(ctx: &mut Ctx) {
             ctx.count("base_run_out_of_fuel_skipped");
             return;
         }
-        ctx.count(&format!("programs.{}", origin));
-        ctx.seen("base_outcomes", &base.outcome);
-        for _ in 0..transforms {
-            let q = transform(rng, &p, ctx);
-            let mut sp = Spelling::mild(rng);
-            sp.vary_case = true;
-            let text = match render(&q, &sp, rng) {
-                Ok(r) => r.text,
-                Err(e) => {
-                    ctx.count("transformed_inexpressible");
-                    ctx.seen("generator_inexpressible_reasons", &e.0);
-                    continue;
-                }
-            };
-            ctx.count("transforms");
-            match observe(ctx, &text, stdin, fuel) {
-                Err(e) => {
-                    ctx.violation(
-                        "transformed_program_rejected",
-                        &e,
-                        Json::obj().with("original", Json::s(&base_text)).with("transformed", Json::s(&text)),
-                    );
-                    break;
-                }
-                Ok(o) => {
-                    if o != base {
-                        let what = if o.stdout != base.stdout { "stdout" } else { "outcome" };
-                        ctx.violation(
-                            &format!("renaming_changed_{}", what),
-                            &format!(
-                                "original: {:?} / {}\nrenamed: {:?} / {}",
-                                String::from_utf8_lossy(&base.stdout),
-                                base.outcome,
-                                String::from_utf8_lossy(&o.stdout),
-                                o.outcome
-                            ),
-                            Json::obj().with("original", Json::s(&base_text)).with("transformed", Json::s(&text)),
-                        );
-                        break;
-                    } else {
-                        ctx.nontrivial(hash_str(&text));
-                        if ctx.samples.len() < 2 && text.len() < 700 && base_text.len() < 700 {
-                            ctx.sample(Json::obj().with("original", Json::s(&base_text)).with("transformed", Json::s(&text)).with("stdout", Json::s(String::from_utf8_lossy(&o.stdout).replace('\n', " | "))).with("outcome", Json::s(&o.outcome)));
-                        }
-                    }
-                }
+        check_transforms(ctx, rng, &p, &base_text, &base, stdin, fuel, transforms, origin);
+    });
+    let n = ctx.size(1_500, 60_000);
+    ctx.cases("duplicate_declarations", n, |ctx, rng, _| {
+        let p = duplicate_program(rng);
+        let base_text = match render(&p, &Spelling::canonical(), rng) {
+            Ok(r) => r.text,
+            Err(_) => {
+                ctx.count("generator_inexpressible");
+                return;
             }
-        }
+        };
+        let base = match observe(ctx, &base_text, b"", 5_000) {
+            Ok(o) => o,
+            Err(_) => {
+                ctx.count("duplicate_declaration_program_rejected_by_the_parser");
+                return;
+            }
+        };
+        check_transforms(ctx, rng, &p, &base_text, &base, b"", 5_000, transforms, "duplicate_declarations");
     });
 }
